@@ -98,6 +98,25 @@ def labels_path(env, H, W, sigma, kind, rgb):
     return env["files"][key]
 
 
+def mv_frames(sizes, sigmas, kind):
+    """Two-video label set: frame 0 is frame 0 of the scene drawn at sizes[0], frame 1 is frame 1 of the scene at sizes[1]."""
+    return [scene(sizes[0][0], sizes[0][1], sigmas[0], kind)[0], scene(sizes[1][0], sizes[1][1], sigmas[1], kind)[1]]
+
+
+def labels_path_mv(env, sizes, sigmas, kind, rgb):
+    """.pkg.slp over two videos of different frame sizes (every labelled frame is frame 0 of its own video)."""
+    key = ("mv", tuple(map(tuple, sizes)), tuple(sigmas), kind, bool(rgb))
+    if key not in env["files"]:
+        frs = mv_frames(sizes, sigmas, kind)
+        frames = [
+            {"image": frame_image(sizes[v][0], sizes[v][1], fr["blobs"], sigmas[v], rgb), "instances": [np.array(i, dtype=np.float64) for i in fr["instances"]], "video": v}
+            for v, fr in enumerate(frs)
+        ]
+        name = "mv" + "_".join(f"{h}x{w}" for h, w in sizes) + f"_{kind}_{int(bool(rgb))}_" + "_".join(str(x).replace(".", "p") for x in sigmas)
+        env["files"][key] = S.write_labels(env["tmp"], frames, S.make_skeleton(K), name=name)
+    return env["files"][key]
+
+
 SCENE_OF = {"bottomup": "multi", "single": "single", "centered": "multi"}
 
 
